@@ -158,6 +158,7 @@ def _msg_class(e):
     first = re.sub(r"^<c01>:\d+:\d+: ", "", first)
     first = re.sub(r"['\"].*?['\"]", "Q", first)
     first = _NUM.sub("N", first)
+    first = re.sub(r"[^\x00-\x7f]+", "U", first)  # the offending non-ASCII text itself is not part of the class
     return (type(e).__name__ + ":" if type(e) is not SyntaxError else "") + first[:60]
 
 
